@@ -52,6 +52,9 @@ type Config struct {
 	// SlowMail (C17 only): the goroutine the library starts to send a mail may
 	// still be on its way while up to three later requests are served
 	SlowMail bool `json:"slow_mail,omitempty"`
+	// ExpireWithRemember (C09 only): expire and remember together, the
+	// remember middleware outside the expire middleware
+	ExpireWithRemember bool `json:"expire_with_remember,omitempty"`
 	// AppLoadsUser: an application middleware in front of the authboss routes
 	// loads the current user into the request context (as the sample
 	// application's data injector does)
